@@ -111,7 +111,7 @@ func runTimeoutCase(a args, tcx toCase, idx int, confirm bool) (suspect string) 
 	t0 := time.Now()
 	err := r.Run(t)
 	dur := time.Since(t0)
-	r.Finish()
+	lockedFinish(r.Finish)
 	got := strings.Fields(h.ReadFile(trace))
 	var pids []int
 	for _, f := range strings.Fields(h.ReadFile(pidfile)) {
